@@ -39,7 +39,7 @@ ASSUMPTIONS = ['only strings are fed (the pipeline feeds internal_hash hex strin
                '(relative std of the linear-counting estimate is <= 0.3 % in this range, so 2 % is > 6 sigma)',
                'value families are injective by construction, so the model distinct count is the number of fresh indices']
 
-FAMILIES = ['hex', 'v', 'uni', 'dec8', 'hexseq', 'sha64']
+FAMILIES = ['hex', 'v', 'uni', 'dec8', 'hexseq', 'sha64', 'nl']
 _M32 = 0xFFFFFFFF
 CHUNK = 1 << 16
 SHUFFLE_MAX_ADDS = 3 * B      # shuffle segments re-feed everything: skipped (and counted) beyond this many adds
@@ -66,6 +66,8 @@ def make_values(family, salt, idx):
         return [hashlib.sha256(b'%d' % v).hexdigest() for v in x.tolist()]
     if family == 'uni':
         return ['ключ%d値é' % v for v in x.tolist()]
+    if family == 'nl':         # free-text values spanning several lines (LF, CR LF, a trailing newline) - strings like any other
+        return ['note %d\nline two\r\n%d\n' % (v, v % 7) for v in x.tolist()]
     raise Inconclusive()
 
 
@@ -123,6 +125,7 @@ def oracle_big(case, rec):
     segs = []                   # executed index arrays, in order (the multiset added so far)
     adds = 0
     state = {'last': None, 'fresh_since': True}
+    companions = []
     flags = {'replay_near': False, 'dup_before': False, 'dup_at': False, 'dup_after': False}
 
     def probe(where):
@@ -159,6 +162,26 @@ def oracle_big(case, rec):
             probe(where)
         elif op[0] == 'probe':
             probe(where)
+        elif op[0] == 'companion':
+            # another live sketch in the same process (the pipeline keeps one per feature) takes op[1] distinct values of its own;
+            # the sketch under observation received nothing meanwhile
+            probe(f'before segment #{k} {op!r}')
+            cnt, salt2 = int(op[1]), int(op[2])
+            if not (0 < cnt <= TOP and 0 <= salt2 < 2 ** 31):
+                raise Inconclusive()
+            comp = HyperLogLog(ERROR_BOUND)
+            feed(comp, 'v' if family != 'v' else 'hex', salt2, np.arange(0, cnt, dtype=np.int64))
+            companions.append((comp, cnt))
+            rec.cls('second-live-sketch')
+            got = len(sk)
+            if got != state['last']:
+                raise Violation(f'{where}: len of the observed sketch changed from {state["last"]} to {got} while only ANOTHER sketch '
+                                f'object received values ({cnt} distinct ones); {n} distinct values in the observed sketch',
+                                kind='C14/isolation')
+            for ci, (c2, d2) in enumerate(companions):
+                bad = size_verdict(len(c2), d2)
+                if bad is not None:
+                    raise Violation(f'{where}: companion sketch #{ci}: {bad[1]}', kind=bad[0])
         elif op[0] == 'shuffle':
             probe(where)
             if n > B:
@@ -185,6 +208,10 @@ def oracle_big(case, rec):
         else:
             raise Inconclusive()
     probe('at the end of the history')
+    for ci, (c2, d2) in enumerate(companions):
+        bad = size_verdict(len(c2), d2)
+        if bad is not None:
+            raise Violation(f'at the end of the history: companion sketch #{ci}: {bad[1]}', kind=bad[0])
     rec.nt(n > B or flags['replay_near'], key=case)
     rec.cls('family=' + family,
             'reach=' + ('<2^18-2' if n < B - 2 else '2^18-2..2^18' if n <= B else '2^18+1..2^18+2' if n <= B + 2 else
@@ -265,6 +292,8 @@ def big_history(draw):
                 if n + k <= TOP:
                     ops.append(['fresh', k])
                     n += k
+        if n > B and draw(st.integers(0, 2)) == 0:
+            ops.append(['companion', B + draw(st.integers(1, B // 2)), draw(st.integers(0, 2 ** 31 - 1))])
         ops.append(['probe'])
     return {'family': family, 'salt': salt, 'ops': ops}
 
@@ -351,7 +380,7 @@ def oracle_small(case, rec):
 
 ORACLES = {'C14/replay-heavy': oracle_big, 'C14/big-history': oracle_big, 'C14/small-history': oracle_small}
 # sub-kinds are raised by both oracles: replay dispatches on the shape of the case
-for _k in ('exact', 'within-2pct', 'duplicate-blind', 'order'):
+for _k in ('exact', 'within-2pct', 'duplicate-blind', 'order', 'isolation'):
     ORACLES['C14/' + _k] = lambda case, rec: (oracle_big if 'ops' in case else oracle_small)(case, rec)
 
 
